@@ -233,13 +233,44 @@ def emit(repo, spec, H):
             e = e.replace(a, b)
         return H.P(e, ["nt", "fsub"], env).ternary_all()
     m1 = re.search(r"ntstring\s*\[\s*1\s*\]\s*=\s*([^;]+);", ub)
-    m3 = re.findall(r"(?:if\s*\(([^;{}]*?)\)\s*)?ntstring\s*\[\s*3\s*\]\s*=\s*([^;]+);", ub)
-    if not m1 or len(m3) != 2 or m3[0][0] or not m3[1][0]:
+    m3 = re.findall(r"(?:(else\s+)?if\s*\(([^;{}]*?)\)\s*)?ntstring\s*\[\s*3\s*\]\s*=\s*([^;]+);", ub)
+    # expected shape: one unconditional default, then ONE if / else-if chain of conditional overrides
+    if not m1 or len(m3) < 2 or m3[0][1] or any(not c for _, c, _ in m3[1:]) or m3[1][0] or \
+            any(not e for e, _, _ in m3[2:]):
         raise ValueError("gr_exprs: unexpected number-type record code in GRIupdatemeta: %r" % (m3,))
+
+    def classval(e):
+        # a value is an integer expression over (nt, fsub), or the platform subclass DFKgetPNSC(<expr>, <expr>)
+        mc = re.fullmatch(r"\s*(?:\(\s*uint8\s*\)\s*)?DFKgetPNSC\s*\((.*),([^,]*)\)\s*", e, re.S)
+        if mc:
+            return "(dfkgetpnsc %s %s)" % (zexpr(mc.group(1)), zexpr(mc.group(2)))
+        return zexpr(e)
+    # dfconv.c: DFKgetPNSC (platform number subclass of a type's class on a machine type)
+    pb = H.func_body(H.src(repo, "hdf/src/dfconv.c"), "DFKgetPNSC")
+    psel = re.search(r"switch\s*\(([^{]*)\)\s*\{", pb)
+    prow = H.switch_table(H.src(repo, "hdf/src/dfconv.c"), "DFKgetPNSC", env)
+    if not psel or not prow:
+        raise ValueError("gr_exprs: switch of DFKgetPNSC not found")
+    pn = ["numbertype", "machinetype"]
+    chain = "(-1)"
+    for labels, _assigns, ret in reversed(prow):
+        if "default" in labels:
+            continue
+        if ret is None:
+            raise ValueError("gr_exprs: DFKgetPNSC case without a return")
+        cond = "false"
+        for l in reversed(labels):
+            cond = "orb (Z.eqb sel %s) (%s)" % (H.zlit(l), cond) if cond != "false" else "Z.eqb sel %s" % H.zlit(l)
+        chain = "if %s then %s else %s" % (cond, H.P(ret, pn, env).ternary_all(), chain)
+    L.append("(* ---- dfconv.c: DFKgetPNSC ---- *)")
+    L.append("Definition dfkgetpnsc (numbertype machinetype : Z) : Z := let sel := %s in %s." % (
+        H.P(psel.group(1), pn, env).ternary_all(), chain))
     L.append("(* ---- GRIupdatemeta: bytes 1 (type) and 3 (class / subclass) of the image's DFTAG_NT record ---- *)")
     L.append("Definition nt_rec_type (nt fsub : Z) : Z := %s." % zexpr(m1.group(1)))
-    L.append("Definition nt_rec_class (nt fsub : Z) : Z := if Z.eqb %s 0 then %s else %s." % (
-        zexpr(m3[1][0]), zexpr(m3[0][1]), zexpr(m3[1][1])))
+    body = classval(m3[0][2])
+    for _e, c, v in reversed(m3[1:]):
+        body = "if Z.eqb %s 0 then %s else %s" % (zexpr(c), body, classval(v))
+    L.append("Definition nt_rec_class (nt fsub : Z) : Z := %s." % body)
     cb = H.func_body(H.src(repo, "hdf/src/dfconv.c"), "DFKNTsize")
     ms = re.search(r"switch\s*\(([^{]*)\)\s*\{", cb)
     if not ms:
